@@ -40,9 +40,11 @@ def confirm(prefix, mid):
         name = "seeded_" + re.sub(r"\W", "_", mid).lower()
         os.makedirs(os.path.join(wt, "yrs", "tests"), exist_ok=True)
         shutil.copy(prefix + ".demo.rs", os.path.join(wt, "yrs", "tests", name + ".rs"))
-        feats = "--features weak,sync" if ("weak" in demo or "sync" in demo or "Awareness" in demo) else ""
-        # 1. unchanged tree: the demonstration passes
-        rc, out = sh("cargo test -p yrs --test %s --offline %s" % (name, feats), cwd=wt, env=env)
+        # 1. unchanged tree: the demonstration passes (with the first feature set it compiles and passes under)
+        for feats in ["", "--features weak", "--features sync", "--features weak,sync"]:
+            rc, out = sh("cargo test -p yrs --test %s --offline %s" % (name, feats), cwd=wt, env=env)
+            if rc == 0: break
+        res["demo_features"] = feats
         res["demo_on_unchanged_tree"] = "pass" if rc == 0 else "FAIL"
         if rc != 0:
             res["reason"] = "demonstration fails on the unchanged tree: " + out[-600:]; return finish(res, prefix, mid, store=False)
@@ -57,7 +59,9 @@ def confirm(prefix, mid):
             res["reason"] = "does not compile: " + out[-600:]; return finish(res, prefix, mid, store=False)
         # 3. changed tree: the existing suite still passes (the slow data-set test is failing on the pinned tree already)
         os.remove(os.path.join(wt, "yrs", "tests", name + ".rs"))
-        rc, out = sh("cargo test -p yrs --lib --offline -- --skip test_medium_data_set", cwd=wt, env=env, timeout=3000)
+        # (test_medium_data_set fails on the pinned tree; sync::awareness::test::awareness_summary compares wall-clock milliseconds and
+        #  fails about one run in ten on the unchanged tree, more often under load)
+        rc, out = sh("cargo test -p yrs --lib --offline -- --skip test_medium_data_set --skip awareness_summary", cwd=wt, env=env, timeout=3000)
         m = re.search(r"test result: .*", out); res["unit_suite"] = m.group(0) if m else out[-300:]
         if rc != 0:
             failed = sorted(set(re.findall(r"^test (\S+) \.\.\. FAILED", out, re.M)))
